@@ -57,6 +57,11 @@ structure St (α : Type) where
   /-- `BTreeMap<LPt, Vec<edge>>` keyed by point, ascending: (vertex id, edge ids) -/
   events : List (Nat × List Nat)
   out : List (Pt α × Pt α × Pt α)
+  /-- ghost (never read by the sweep): every ordered lookup so far saw comparison results of the
+      form `gt* eq? lt*` along the stored order, i.e. the stored order was consistent with the
+      comparator for the key looked up, so that any search tree over the same sequence (the
+      `BTreeSet` of the implementation) answers as the list scan of this model does -/
+  mono : Bool := true
 
 abbrev SM (α : Type) := StateT (St α) (Except (SErr α))
 
@@ -141,9 +146,14 @@ def cmpEdge (a b : Edge α) : SM α Ordering := do
   else
     let ya ← yAt a x true
     let yb ← yAt b x true
-    let ga ← tieGrad a
-    let gb ← tieGrad b
-    pure (thenOrd (Num.totalCmp ya yb) (Num.totalCmp ga gb))
+    match Num.totalCmp ya yb with
+    | .eq =>
+      -- edges meeting at their common right end point keep the order they had to the left of it
+      if a.rpt.eq b.rpt && ofEq a.rpt.x x then
+        pure (Num.totalCmp (← edgeGrad b) (← edgeGrad a))
+      else
+        pure (Num.totalCmp (← tieGrad a) (← tieGrad b))
+    | o => pure o
 
 /-- `PartialOrd for YEdge` (used by the range sanity check of `BTreeSet::range`) -/
 def partialCmpEdge (a b : Edge α) : SM α (Option Ordering) := do
@@ -208,11 +218,38 @@ def searchPos (key : Edge α) : List Nat → Nat → SM α (Nat × Bool)
     | .eq => pure (i, true)
     | .lt => pure (i, false)
 
+/-- results of comparing `key` with every stored edge, in stored order -/
+def cmpAll (key : Edge α) : List Nat → SM α (List Ordering)
+  | [] => pure []
+  | k :: ks => do
+    let c ← cmpEdge key (← getEdge k)
+    let r ← cmpAll key ks
+    pure (c :: r)
+
+/-- `gt* eq? lt*` -/
+def isMono : List Ordering → Bool
+  | [] => true
+  | .gt :: r => isMono r
+  | .eq :: r => r.all (· == .lt)
+  | .lt :: r => r.all (· == .lt)
+
+/-- ghost step: record whether the lookup of `key` in `l` is order-consistent; touches only `mono`
+    and cannot fail -/
+def noteMono (key : Edge α) (l : List Nat) : SM α Unit := fun s =>
+  .ok ((), { s with mono := s.mono && (match (cmpAll key l).run s with
+    | .ok (cs, _) => isMono cs
+    | .error _ => true) })
+
+/-- ordered lookup: the ghost note, then the scan -/
+def search (key : Edge α) (l : List Nat) : SM α (Nat × Bool) := do
+  noteMono key l
+  searchPos key l 0
+
 /-- `BTreeSet::insert` -/
 def activeInsert (ei : Nat) : SM α Unit := do
   let e ← getEdge ei
   let s ← get
-  let (i, found) ← searchPos e s.active 0
+  let (i, found) ← search e s.active
   if found then pure ()
   else modify fun s => { s with active := s.active.take i ++ ei :: s.active.drop i }
 
@@ -220,7 +257,7 @@ def activeInsert (ei : Nat) : SM α Unit := do
 def activeRemove (ei : Nat) : SM α Unit := do
   let e ← getEdge ei
   let s ← get
-  let (i, found) ← searchPos e s.active 0
+  let (i, found) ← search e s.active
   if found then modify fun s => { s with active := s.active.take i ++ s.active.drop (i + 1) }
   else pure ()
 
@@ -386,21 +423,21 @@ def handleStart (p : Pt α) (lp1 lp2 : Nat) : SM α Unit := do
   eventsAdd lpTop top
   -- nesting partners by range queries with the not-yet-inserted edges as bounds
   let act := (← get).active
-  let (ib, _) ← searchPos (← getEdge bot) act 0
+  let (ib, _) ← search (← getEdge bot) act
   let botBot : Option Nat := if ib == 0 then none else act[ib - 1]?
-  let (it, tfound) ← searchPos (← getEdge top) act 0
+  let (it, tfound) ← search (← getEdge top) act
   let itop := if tfound then it + 1 else it
   let topTop : Option Nat := act[itop]?
   -- "nothing between": range (Excluded(bot_bot)|Unbounded, Excluded(top_top)|Unbounded)
   let lo ← match botBot with
     | none => pure 0
     | some bb => do
-      let (i, f) ← searchPos (← getEdge bb) act 0
+      let (i, f) ← search (← getEdge bb) act
       pure (if f then i + 1 else i)
   let hi ← match topTop with
     | none => pure act.length
     | some tt => do
-      let (i, _) ← searchPos (← getEdge tt) act 0
+      let (i, _) ← search (← getEdge tt) act
       pure i
   -- the nesting partners must be ordered bottom below top (guard in front of the range query;
   -- without it `BTreeSet::range` panics on an inverted pair of bounds)
@@ -573,11 +610,16 @@ def run (polys : List (Array (Pt α))) : SM α Unit := do
   loop ((← get).verts.size + 1)
 
 def initSt : St α :=
-  { x := -(Num.inf : α), verts := #[], nodes := #[], chains := #[], edges := #[], active := [], events := [], out := [] }
+  { x := -(Num.inf : α), verts := #[], nodes := #[], chains := #[], edges := #[], active := [], events := [], out := [], mono := true }
 
 end Sweep
 
 /-- result of the model: triangles in emission order, or an error -/
+def sweepMon (polys : List (Array (Pt α))) : Except (SErr α) (List (Pt α × Pt α × Pt α) × Bool) :=
+  match (Sweep.run polys).run Sweep.initSt with
+  | .ok (_, s) => .ok (s.out.reverse, s.mono)
+  | .error e => .error e
+
 def sweep (polys : List (Array (Pt α))) : Except (SErr α) (List (Pt α × Pt α × Pt α)) :=
   match (Sweep.run polys).run Sweep.initSt with
   | .ok (_, s) => .ok s.out.reverse
